@@ -668,6 +668,12 @@ func NewResponse(res *http.Response, withBody bool) (*Response, error) {
 			// The body cannot be decoded (e.g. it is not gzip data although
 			// the headers say so): log it as received instead of failing.
 			body, err = readBody(mv)
+			// "As received" is the body itself: the snapshot keeps the chunk framing
+			// of a chunked message (for a bodiless chunked response, e.g. the answer
+			// to a HEAD request, it holds nothing but the last-chunk line).
+			if tec := len(res.TransferEncoding); err == nil && tec > 0 && res.TransferEncoding[tec-1] == "chunked" {
+				body, err = ioutil.ReadAll(httputil.NewChunkedReader(bytes.NewReader(body)))
+			}
 		}
 		if err != nil {
 			return nil, err
